@@ -1088,7 +1088,9 @@ def check_C16(ctx):
         checks_prop.c16_prop_part(ctx)
     except (ImportError, AttributeError):
         pass
-    return ctx.finish("proof", pr, st, rule="run 1 = (queries/probes) + infer(); then has_contradiction / further inference calls; reset_bounds(); run 2 = infer(); canonical dumps of run 1 and run 2 compared as maps with the world default for missing rows")
+    import checks_quant
+    checks_quant.c16_quant_part(ctx)
+    return ctx.finish("proof", pr, st, rule="quantifier part: K7 scenarios (one and two quantifier levels, worlds OPEN/AXIOM/CLOSED), the same sequence of body / quantifier upward and downward calls before and after Model.reset_bounds(), tables compared; run 1 = (queries/probes) + infer(); then has_contradiction / further inference calls; reset_bounds(); run 2 = infer(); canonical dumps of run 1 and run 2 compared as maps with the world default for missing rows")
 
 
 CHECKS.update({"C16": check_C16})
